@@ -12,6 +12,21 @@ from .simfs import REPO, HarnessError
 LIBC = ctypes.CDLL(None, use_errno=True)
 PAGE = mmap.PAGESIZE
 CFLAGS = ["-O1", "-fPIC", "-w", "-std=gnu99"]
+COMPILERS = ("gcc", "clang")
+OPT_LEVELS = ("-O0", "-O1", "-O2", "-O3", "-Os")
+
+
+def toolchain(cc=None):
+    """Command prefix for one fleet's C builds. The compiler and its optimisation level are a
+    per-fleet knob of the plan (`cc`: {"compiler", "opt"}); plans without it (older replays)
+    build as before with gcc -O1. A correct decoder gives the same values under every
+    conforming compiler, so the knob can only expose code whose result depends on one."""
+    if not cc:
+        return ["gcc"] + CFLAGS
+    comp, opt = cc.get("compiler", "gcc"), cc.get("opt", "-O1")
+    if comp not in COMPILERS or opt not in OPT_LEVELS:
+        raise HarnessError("unknown C toolchain in plan: %r" % (cc,))
+    return [comp, opt] + CFLAGS[1:]
 
 SHIM_HEAD = """#include <stddef.h>
 #include <stdint.h>
@@ -139,20 +154,20 @@ class CBuildError(Exception):
     pass
 
 
-def build_runtime(workdir: str) -> str:
+def build_runtime(workdir: str, cc=None) -> str:
     obj = os.path.join(workdir, "bitproto_rt.o")
-    p = subprocess.run(["gcc"] + CFLAGS + ["-c", REPO + "/lib/c/bitproto.c", "-I", REPO + "/lib/c", "-o", obj], capture_output=True, text=True)
+    p = subprocess.run(toolchain(cc) + ["-c", REPO + "/lib/c/bitproto.c", "-I", REPO + "/lib/c", "-o", obj], capture_output=True, text=True)
     if p.returncode != 0:
         raise CBuildError("runtime does not compile: " + p.stderr[-1500:])
     return obj
 
 
-def build_version(workdir: str, c_file: str, header: str, rt_obj: str, tag: str, root, extra_c=()) -> str:
+def build_version(workdir: str, c_file: str, header: str, rt_obj: str, tag: str, root, extra_c=(), cc=None) -> str:
     shim = os.path.join(workdir, "shim_%s.c" % tag)
     with open(shim, "w") as f:
         f.write(gen_shim(header, root))
     so = os.path.join(workdir, "lib_%s.so" % tag)
-    p = subprocess.run(["gcc"] + CFLAGS + ["-shared", "-o", so, c_file] + list(extra_c) + [shim, rt_obj, "-I", REPO + "/lib/c", "-I", os.path.dirname(header)], capture_output=True, text=True)
+    p = subprocess.run(toolchain(cc) + ["-shared", "-o", so, c_file] + list(extra_c) + [shim, rt_obj, "-I", REPO + "/lib/c", "-I", os.path.dirname(header)], capture_output=True, text=True)
     if p.returncode != 0:
         raise CBuildError("generated C does not compile: " + p.stderr[-1500:])
     return so
